@@ -26,19 +26,21 @@ type c16Case struct {
 	Exclude       []string `json:"exclude"`
 	Dst           *h.Tree  `json:"dst"` // populated destination (nil = empty)
 	AlwaysReplace bool     `json:"alwaysreplace"`
+	EmptyLists    bool     `json:"emptylists,omitempty"` // lists without patterns are empty non-nil slices
 }
 
 var c16TreeCfg = h.TreeCfg{
 	MaxEntries: 14, MaxDepth: 4,
 	Names:  []string{"a", "b", "c", "ab", "a-b", "a.b", "a0", "d", "x", "foo", "bar", "baz"},
 	Kinds:  []h.Kind{h.KFile, h.KFile, h.KFile, h.KSymlink, h.KFifo},
-	Xattrs: true, Hardlinks: true, SymTargets: []string{"a", "../b", "/c", "dangling"}, UncleanTargets: true,
+	Xattrs: true, BigXattrs: true, Hardlinks: true, SymTargets: []string{"a", "../b", "/c", "dangling"}, UncleanTargets: true,
 }
 
 func genC16(t *rapid.T) *c16Case {
 	c := &c16Case{Tree: h.GenTree(t, c16TreeCfg, "t")}
 	c.Include = h.GenPatterns(t, c.Tree, "inc", 3)
 	c.Exclude = h.GenPatterns(t, c.Tree, "exc", 3)
+	c.EmptyLists = rapid.IntRange(0, 2).Draw(t, "emptylists") == 0
 	c.AlwaysReplace = rapid.IntRange(0, 3).Draw(t, "alwaysreplace") == 0
 	if rapid.IntRange(0, 2).Draw(t, "populated") == 0 {
 		// unrelated old entries plus already-existing copies of some source directories
@@ -153,6 +155,12 @@ func c16Check(env *h.Env, c *c16Case) error {
 	refSet, refRes, rerr := refFor(false)
 
 	var opts []fscopy.Opt
+	if c.EmptyLists {
+		opts = append(opts, func(ci *fscopy.CopyInfo) { ci.IncludePatterns, ci.ExcludePatterns = []string{}, []string{} })
+		if len(c.Include) == 0 || len(c.Exclude) == 0 {
+			env.Class("empty-non-nil-pattern-list")
+		}
+	}
 	for _, p := range c.Include {
 		opts = append(opts, fscopy.WithIncludePattern(p))
 	}
@@ -205,7 +213,7 @@ func c16Check(env *h.Env, c *c16Case) error {
 	}
 	// the set of paths the copy wrote = new or changed paths, plus pre-existing directories it merged into
 	var walkSet []string
-	werr := fsutil.Walk(context.Background(), srcDir, &fsutil.FilterOpt{IncludePatterns: c.Include, ExcludePatterns: c.Exclude}, func(p string, fi os.FileInfo, err error) error {
+	werr := fsutil.Walk(context.Background(), srcDir, &fsutil.FilterOpt{IncludePatterns: listArg(c.Include, c.EmptyLists), ExcludePatterns: listArg(c.Exclude, c.EmptyLists)}, func(p string, fi os.FileInfo, err error) error {
 		if err != nil {
 			return err
 		}
